@@ -19,7 +19,7 @@ Print Assumptions C07_read_negative.
 
 Theorem C07_read_integer : forall neg w n rest, wfits w n -> n < two63 ->
   run read_integer (ser (IInt neg w n) ++ rest) = (inl (if neg then (-1 - Z.of_N n)%Z else Z.of_N n), rest).
-Proof. intros. rewrite read_integer_spec by auto. destruct neg; [rewrite neg_of_small|rewrite to_i64_small]; auto. Qed.
+Proof. intros. rewrite read_integer_spec by auto. destruct neg; [rewrite neg_of_small|rewrite clamp_i64_small]; auto. Qed.
 Print Assumptions C07_read_integer.
 
 Theorem C07_read_bool : forall (b : bool) rest,
